@@ -209,6 +209,7 @@ def handle(entries: list) -> dict:
 			inputs, cons = inputs_for(params)
 			prem = sem.Premises()
 			mp, mc = sem.Machine(pf, 'py', prem, UNROLL, pc), sem.Machine(cf, 'cpp', None, UNROLL, cc)
+			mc.source_field_order = {k: list(v['fields']) for k, v in pc.items()}
 			rp, vp = mp.run(name, inputs)
 			rc, vc = mc.run(name, inputs)
 			class_conds: dict = {}
